@@ -191,8 +191,10 @@ theorem arm_wf {t : Tracker} {tx : Tx} {pre : Status} {past future : List Tx} {o
         split at h
         · rename_i hps
           have hn := perShareAcb_none hps
-          simp only [Except.ok.injEq] at h; subst h
-          exact hpost pre.acb hp.acb hp.reg
+          split at h
+          · cases h
+          · simp only [Except.ok.injEq] at h; subst h
+            exact hpost pre.acb hp.acb hp.reg
         · rename_i aps hps
           obtain ⟨a, ha, haps⟩ := perShareAcb_some hps
           have hS : 0 < pre.shares := by grind
